@@ -42,11 +42,15 @@ Verdicts(r, in, o) ==
                   /\ \A i \in 1 .. Len(sz) : sz[i] % o.g = 0 /\ sz[i] > 0),
    specC12 |-> C12Holds(in, o), specC13 |-> C13Holds(in, o)]
 
-TraceInit == l = 1 /\ v = <<>>
+\* line 1 is the driver's header record (so that the depth TLC reports is the line number); header
+\* records also separate concatenated suites
+TraceInit == l = 2 /\ v = <<>> /\ TraceLog[1].e = "hdr"
 
 TraceStep ==
   /\ l <= Len(TraceLog)
-  /\ \E r \in {TraceLog[l]} : \E in \in {InOf(r, FALSE)} : \E o \in {ParForOutcome(in)} :
+  /\ \E r \in {TraceLog[l]} :
+     IF r.e = "hdr" THEN v' = <<>> ELSE
+     \E in \in {InOf(r, FALSE)} : \E o \in {ParForOutcome(in)} :
        \* the specification allows two thread-count rules for tiny explicit-chunk ranges (clamp)
        IF r.mode = "chunk" /\ r.b # o.bodies
        THEN \E in2 \in {InOf(r, TRUE)} : \E o2 \in {ParForOutcome(in2)} : v' = Verdicts(r, in2, o2)
@@ -65,8 +69,8 @@ SpecC13        == v # <<>> => v.specC13
 
 TraceAccepted ==
   LET d == TLCGet("stats").diameter IN
-  IF d = Len(TraceLog) + 1 THEN TRUE
-  ELSE /\ PrintT(<<"TRACE_REJECTED_AT_LINE", d, "OF", Len(TraceLog)>>)
-       /\ PrintT(<<"OFFENDING", TraceLog[d]>>)
+  IF d = Len(TraceLog) THEN TRUE
+  ELSE /\ PrintT(<<"TRACE_REJECTED_AT_LINE", d + 1, "OF", Len(TraceLog)>>)
+       /\ PrintT(<<"OFFENDING", TraceLog[d + 1]>>)
        /\ FALSE
 ==========================================================================
